@@ -97,16 +97,18 @@ def gen_cfg(rng, small=None, allow_transform=False, allow_cache=True, devices=Tr
     if rng.random() < 0.3:
         cfg["max_suffix_size"] = rng.choice([1, 10, 64]) if small else rng.choice([1024, 4096])
     suf = cfg["max_suffix_size"] if cfg["max_suffix_size"] is not None else (cfg["knobs"].get("FCLONES_VERIF_MAX_PREFIX", 4096 if kind == "ssd" else 16384))
-    # keep the shipped invariant suffix_threshold >= suffix length: a file shorter than the suffix
-    # makes `len - suffix_len` underflow (panic in debug builds, harmless wrap in release); that is
-    # outside every listed property, so it is not generated (DESIGN: observations)
-    if thr < suf:
+    if rng.random() < 0.1:
+        # a suffix limit far above the lengths of the files (the help text of --skip-content-hash recommends
+        # raising both limits): "the last N bytes" of a shorter file is the whole file
+        cfg["max_suffix_size"] = rng.choice([1000, 5000]) if small else rng.choice([10**6, 2**31])
+        suf = cfg["max_suffix_size"]
+    # the DEFAULT suffix length never exceeds the shipped suffix threshold; the knobs must not construct a
+    # configuration that cannot be shipped (threshold below the default suffix length).  A suffix limit given by
+    # the user with --max-suffix-size is an input like any other and may exceed the threshold and the file
+    if thr < suf and cfg["max_suffix_size"] is None:
         thr = suf
         if small:
             cfg["knobs"]["FCLONES_VERIF_SUFFIX_THRESHOLD"] = thr
-        else:
-            cfg["max_suffix_size"] = None
-            suf = 4096 if kind == "ssd" else 16384
     cfg["bounds"] = {"min_prefix": minp_, "max_prefix": maxp_, "buf": buf, "suffix_threshold": thr, "suffix": suf}
     if small and rng.random() < 0.15:
         # aligned boundaries: suffix length == suffix threshold == a file length, prefix limit above it
